@@ -662,6 +662,21 @@ def r15_13(ctx):
     prog = ctx.prog()
     sites = prog.callers_of(lambda t: callee_is(t, "unpack_str") and "NodeInDom" in t.get("callee", ""))
     ctx.floor("R15.13", "reads of a document node's text", len(sites), 2)
+    # the pointer itself (the `dom_str` member of the node's data union) is read by the one accessor only: a second reader
+    # has to repeat the tag dispatch, and is held to it here
+    for f in prog.fns.values():
+        if f.crate != "sonic_rs" or (f.name == "unpack_str" and "NodeInDom" in ((f.impl or {}).get("self_ty") or "")):
+            continue
+        for b, i, st in f.assigns():
+            for pl in rv_places(st["rv"]):
+                names = [e[2] for e in pl[1] if isinstance(e, list) and e[0] == "."]
+                if "dom_str" in names:
+                    sites.append((f, b, {"ln": st.get("ln"), "callee": "data.dom_str"}))
+        for b, t in f.calls():
+            for a in t["args"]:
+                pl = op_place(a)
+                if pl is not None and "dom_str" in [e[2] for e in pl[1] if isinstance(e, list) and e[0] == "."]:
+                    sites.append((f, b, {"ln": t.get("ln"), "callee": "data.dom_str"}))
     seen = collections.Counter()
     for f, b, t in sites:
         ok = False
